@@ -337,9 +337,8 @@ def pick_algo0(rng, jw_eff):
 def arrays_qn(mpo):
     """after try_swap_site one entry of mpo.qn is a Python list of arrays (observation, counted); the
     label VALUES are what we want to test, so normalise the container type"""
-    was_list = any(not isinstance(q, np.ndarray) for q in mpo.qn)
-    mpo.qn = [np.array(q) for q in mpo.qn]
-    return was_list
+    # (the container type is no longer normalised here: an operator that cannot be applied after a swap is a violation)
+    return any(not isinstance(q, np.ndarray) for q in mpo.qn)
 
 
 def probe_swap_sequences(run):
